@@ -765,6 +765,7 @@ func runBatchScenario(cfg BatchCfg, sc *BatchScript, seed int64) []Event {
 	reg := NewRegistry()
 	reg.NoTypedNil = true
 	reg.RunCtxKind = cfg.CtxKind
+	reg.MixFlavour = true
 	b := &batchRun{settle: batchSettle, cfg: cfg, sc: sc, reg: reg, store: flyt.NewSharedStore(), gids: map[int64]int{}, att: map[int]int{},
 		parkCh: make(chan struct{}, 1), done: make(chan struct{}), rng: rand.New(rand.NewSource(seed)), barrier: make(chan struct{})}
 	b.barrierN = cfg.C
